@@ -32,6 +32,9 @@ def owners(op, clause, e=None, nbuf0=3):
         o |= {"C05", "C09"}              # the copy's stored size is not its extent
     if clause.startswith("alloc:") and e is not None and any(a[0] > nbuf0 for a in e.get("alloc", [])):
         o |= {"C20"}                     # an unpickled buffer handed out storage that is in use
+    if (e is not None and op in ("grow", "new", "set", "noise") and clause.startswith(("frame:", "grow:", "read:", "decode:"))
+            and e.get("memd") and all(d[0] > nbuf0 for d in e["memd"])):
+        o |= {"C20"}                     # the step touched unpickled buffers only: objects that came back from pickle are not usable like others
     if op == "set" and clause.startswith("read:view:"):
         o |= {"C10"}                     # a view rebuilt from the bytes does not return what was just assigned: the assignment itself failed
     if op == "copy" and clause.startswith(("ref:", "copy-ref:", "fmt:ref-", "fmt:union-", "fmt:null-union")):
@@ -592,6 +595,10 @@ def make_history(pid, seed, index):
     w.index = index
     w.ns.with_defaults = (index % 4 == 3)       # a quarter of the histories declare defaults (xo.Field(type, default=...)) on their struct classes
     w.ns.default_seed = index
+    if index % 5 == 2 and pid != "C20":
+        # array classes carry the names the library gives them (item type and shape, NOT the axis order): an xobject of a namesake
+        # class (same item type and shape, another order) is then a source whose class NAME equals the destination's
+        w.ns.native_arrays = "first"
     stopped = ""
     try:
         PROGRAMS[pid](w, rng)
